@@ -244,7 +244,13 @@ class Ctx:
             },
         }
         if self.exhaustive is not None:
-            ev["coverage"]["exhaustive"] = self.exhaustive
+            # schema: boolean = the run enumerated its whole finite space; descriptions of the
+            # parts that were enumerated completely go to exhaustive_parts
+            if isinstance(self.exhaustive, bool):
+                ev["coverage"]["exhaustive"] = self.exhaustive
+            else:
+                ev["coverage"]["exhaustive"] = False
+                ev["coverage"]["exhaustive_parts"] = self.exhaustive
         if explanation:
             ev["coverage"]["explanation"] = explanation
         os.makedirs(C.EVID, exist_ok=True)
